@@ -21,15 +21,17 @@ def handler (mode : String) (line : String) : String :=
   | "oracle" =>
       match parseManyFast line with
       | some [ct, ot] =>
+          -- an ill-formed line is not a case: the property says nothing about it (model and harness
+          -- must still agree that it is ill-formed, which the correspondence diff checks)
           match caseOf? ct with
           | some c =>
-              if !Wf.wfCase c then "(bad-case)"
-              else if ot == .list [.atom "bad-case"] then "(bad-case)"
+              if !Wf.wfCase c then "ok"
+              else if ot == .list [.atom "bad-case"] then "fail step=0 idx=0 clause=harness-rejected-wellformed-case"
               else
                 match obsOf? c.probes ot with
                 | some o => verdictStr (Spec.check Regex.env c o)
                 | none => "fail step=0 idx=0 clause=unparsable-observation"
-          | none => "(bad-case)"
+          | none => "ok"
       | _ => "(bad-line)"
   | "parse" =>
       match parseManyFast line with
